@@ -743,11 +743,47 @@ impl<F: Read + Write + Seek> Package<F> {
             &validation_columns,
             &validation_rows,
         )?;
+        let result = self.insert_catalog_rows(
+            &table_name,
+            columns,
+            columns_rows,
+            tables_rows,
+            validation_rows,
+        );
+        if result.is_err() {
+            // Something went wrong part way (e.g. the string pool is full):
+            // remove whatever was recorded about the table so far.
+            self.tables.remove(&table_name);
+            for (catalog_table, column_name) in [
+                (VALIDATION_TABLE_NAME, "Table"),
+                (COLUMNS_TABLE_NAME, "Table"),
+                (TABLES_TABLE_NAME, "Name"),
+            ] {
+                if self.tables.contains_key(catalog_table) {
+                    let _ = self.delete_rows(Delete::from(catalog_table).with(
+                        Expr::col(column_name)
+                            .eq(Expr::string(table_name.as_str())),
+                    ));
+                }
+            }
+        }
+        result
+    }
+
+    fn insert_catalog_rows(
+        &mut self,
+        table_name: &str,
+        columns: Vec<Column>,
+        columns_rows: Vec<Vec<Value>>,
+        tables_rows: Vec<Vec<Value>>,
+        validation_rows: Vec<Vec<Value>>,
+    ) -> io::Result<()> {
         self.insert_rows(Insert::into(COLUMNS_TABLE_NAME).rows(columns_rows))?;
         self.insert_rows(Insert::into(TABLES_TABLE_NAME).rows(tables_rows))?;
         let long_string_refs = self.string_pool.long_string_refs();
-        let table = Table::new(table_name.clone(), columns, long_string_refs);
-        self.tables.insert(table_name, table);
+        let table =
+            Table::new(table_name.to_string(), columns, long_string_refs);
+        self.tables.insert(table_name.to_string(), table);
         self.insert_rows(
             Insert::into(VALIDATION_TABLE_NAME).rows(validation_rows),
         )?;
